@@ -54,8 +54,9 @@ Script(s) ==
   << [e |-> "cfg", cap |-> 8, limit |-> 64],
      [e |-> "call", fn |-> "new", h |-> 1], [e |-> "ret", r |-> 1],
      [e |-> "call", fn |-> "new", h |-> 2], [e |-> "ret", r |-> 1],
-     [e |-> "conc", sched |-> s, threads |-> << <<StartCall(1, os[1])>>, <<StartCall(2, os[2])>> >>,
-      exp |-> [rets |-> << <<1>>, <<1>> >>, kids |-> <<Kid(1, os[1]), Kid(2, os[2])>>]],
+     \* (each thread has its own signal mask, and has exactly that mask again when its call has returned: C12)
+     [e |-> "conc", sched |-> s, threads |-> << <<StartCall(1, os[1])>>, <<StartCall(2, os[2])>> >>, masks |-> << <<10>>, <<12, 15>> >>,
+      exp |-> [rets |-> << <<1>>, <<1>> >>, kids |-> <<Kid(1, os[1]), Kid(2, os[2])>>, tmasks |-> << <<10>>, <<12, 15>> >>]],
      [e |-> "call", fn |-> "destroy", h |-> 1], [e |-> "ret", r |-> 0, mon |-> <<>>],
      [e |-> "call", fn |-> "destroy", h |-> 2], [e |-> "ret", r |-> 0, mon |-> <<>>, nfd |-> 3, nalloc |-> 0] >>
 
